@@ -332,7 +332,7 @@ def chdir(path):
 def stale_caches(obj, depth=1, _prefix=""):
     """Invariant at a quiescent point: every value held by a functools.cached_property of `obj` (and of its attribute objects, to the given
     depth) equals what the property's function returns now.  Returns [(name, cached, fresh)] for the ones that differ - a cache that a mutating
-    method forgot to invalidate.  Pure observation: nothing is modified."""
+    method forgot to invalidate.  Observation only: the cached values are left as they were."""
     from functools import cached_property
     out = []
     seen = set()
@@ -340,12 +340,14 @@ def stale_caches(obj, depth=1, _prefix=""):
         for name, attr in vars(cls).items():
             if isinstance(attr, cached_property) and name not in seen and name in getattr(obj, "__dict__", {}):
                 seen.add(name)
-                old = obj.__dict__[name]
+                old = obj.__dict__.pop(name)   # removed while recomputing: an overriding property may call super().<same name>
                 try:
                     fresh = attr.func(obj)
                 except Exception as e:  # noqa
                     out.append((_prefix + name, old, f"recomputation raised {type(e).__name__}: {e}"))
                     continue
+                finally:
+                    obj.__dict__[name] = old
                 same = True
                 try:
                     if isinstance(old, np.ndarray) or isinstance(fresh, np.ndarray):
